@@ -8,17 +8,20 @@ Bases == ndJsonDeserialize(IOEnv.BASES)
 
 Tier == IF "VERIF_TIER" \in DOMAIN IOEnv THEN IOEnv.VERIF_TIER ELSE "quick"
 FieldCap == IF Tier = "quick" THEN 24 ELSE 400
+Big(n) == n > 20000        \* large bases (thousands of table entries): a handful of fields and cuts only
 Truncs(n) ==
+  IF Big(n) THEN (0..16) \cup { k \in 0..(n - 1) : k % 9973 = 0 } \cup ((n - 8)..(n - 1)) ELSE
   IF n <= (IF Tier = "quick" THEN 200 ELSE 1500) THEN 0..(n - 1)
   ELSE (0..64) \cup { k \in 0..(n - 1) : k % (IF Tier = "quick" THEN 23 ELSE 7) = 0 } \cup ((n - 40)..(n - 1))
 
-\* keep the mutations of the first and last FieldCap/2 field offsets when a base has very many fields
-Capped(muts) ==
-  LET offs == SetToSortSeq({ m.off : m \in muts }, LAMBDA a, b : a < b)
+\* keep the first and last FieldCap/2 field offsets when a base has very many fields (capped BEFORE the patches are
+\* built); large bases keep only the fields near the start and the end of the file
+CappedOffsets(f, family) ==
+  LET all == FieldsOf(f, family)
+      offs == SetToSortSeq(IF Big(Len(f)) THEN { x \in all : x < 40 \/ x > Len(f) - 40 } ELSE all, LAMBDA a, b : a < b)
       n == Len(offs)
-      keep == IF n <= FieldCap THEN { offs[k] : k \in 1..n }
-              ELSE { offs[k] : k \in (1..(FieldCap \div 2)) \cup ((n - (FieldCap \div 2) + 1)..n) }
-  IN { m \in muts : m.off \in keep }
+  IN IF n <= FieldCap THEN { offs[k] : k \in 1..n }
+     ELSE { offs[k] : k \in (1..(FieldCap \div 2)) \cup ((n - (FieldCap \div 2) + 1)..n) }
 
 VARIABLE i
 Init == i = 1
@@ -28,7 +31,7 @@ Spec == Init /\ [][Next]_i
 Emit == (i <= Len(Bases)) =>
   LET b == Bases[i] IN
   PrintT("G " \o ToJson([base |-> i, name |-> b.name,
-                         muts |-> SetToSeq(Capped(Mutations(b.bytes, b.family))),
+                         muts |-> SetToSeq(MutationsAt(b.bytes, b.family, CappedOffsets(b.bytes, b.family))),
                          truncs |-> SetToSeq(Truncs(Len(b.bytes))),
                          cuts |-> IF b.family = "pack" THEN <<>>
                                   ELSE SetToSeq(DataCuts(b.bytes, IF b.family = "bin_be" THEN "be" ELSE "le"))]))
